@@ -182,8 +182,11 @@ def lifetimes(beh, types, ctxs):
     return lts
 
 
-def decode_rows(obs):
-    """rows of a QUERY/REPLAY response -> list of (k, ctx, type, event_id)"""
+def decode_rows(obs, back=None):
+    """rows of a QUERY/REPLAY response -> list of (k, ctx, type, event_id); `back` maps real context names to the model's"""
+    if back:
+        rows = decode_rows(obs)
+        return rows if rows is None else [(k, back.get(c, c), t, e) for (k, c, t, e) in rows]
     if obs.get("outcome") != "response":
         return None
     cols = obs.get("columns", [])
@@ -197,8 +200,33 @@ def decode_rows(obs):
     return [(r[ik], r[ic], r[it], r[ie]) for r in obs["rows"]]
 
 
+def probe_routing(bindir, shards, names=None):
+    """{shard: [context names]} as the running code routes them (observed from event ids, not computed)."""
+    root = core.WORK / "routing-probe" / f"s{shards}"
+    if root.exists():
+        shutil.rmtree(root)
+    root.mkdir(parents=True)
+    names = names or [f"p{i}" for i in range(16)]
+    cfg = {"root": str(root / "db"), "fill_factor": 1000, "event_per_zone": 2, "shards": shards, "k": 2}
+    steps = [{"op": "cmd", "text": 'DEFINE rp FIELDS { k: "int" }'}]
+    for i, n in enumerate(names):
+        steps.append({"op": "cmd", "text": f'STORE rp FOR {n} PAYLOAD {{"k": {i}}}'})
+    steps.append({"op": "cmd", "text": "QUERY rp", "tag": ["q"]})
+    rc, obs, err = core.run_vdrive(bindir, {"config": cfg, "out": str(root / "o.ndjson"), "steps": steps})
+    by = {}
+    for o in obs:
+        if o.get("tag") == ["q"]:
+            cols = o.get("columns", [])
+            for r in o.get("rows", []):
+                by.setdefault((r[cols.index("event_id")] >> 12) & 0x3FF, []).append(r[cols.index("context_id")])
+    shutil.rmtree(root, ignore_errors=True)
+    if not by:
+        raise core.ToolError(f"routing probe failed: rc={rc} {err[-200:]}")
+    return by
+
+
 def run_behaviour(bindir, beh, *, root, cap, k, types, ctxs, fill=None, epz=None, keep=False, extra_cfg=None,
-                  crash_delay_ms=40):
+                  crash_delay_ms=40, shards=1, shard=0, ctx_names=None):
     """Replay one behaviour. Returns list of per-command observation dicts:
        {i, cmd, model, real: {q: {t: rows}, count: {t: n}, replay: {c: rows}, fs: {...}}, problems: [...]}"""
     root = Path(root)
@@ -208,10 +236,24 @@ def run_behaviour(bindir, beh, *, root, cap, k, types, ctxs, fill=None, epz=None
     if fill is None:
         # capacity = fill_factor * event_per_zone
         fill, epz = (cap, 1) if cap % 2 else (cap // 2, 2)
-    cfg = {"root": str(root / "db"), "fill_factor": fill, "event_per_zone": epz, "shards": 1, "k": k}
+    cfg = {"root": str(root / "db"), "fill_factor": fill, "event_per_zone": epz, "shards": shards, "k": k}
     if extra_cfg:
         cfg.update(extra_cfg)
     lts = lifetimes(beh, types, ctxs)
+    back = {v: k for k, v in (ctx_names or {}).items()}
+    if shards > 1:
+        # the model describes ONE shard: every context of the behaviour is given a name that the code routes to
+        # shard `shard`; the other shards stay empty (they still take part in start-up, shutdown and fan-out)
+        for lt in lts:
+            for (_i, sts) in lt:
+                for st in sts:
+                    if st.get("op") == "compact":
+                        st["shard"] = shard
+                    if st.get("op") == "cmd":
+                        for c in ctxs:
+                            st["text"] = st["text"].replace(f" FOR {c} ", f" FOR {ctx_names[c]} ")
+                            if st["text"].endswith(f" FOR {c}"):
+                                st["text"] = st["text"][: -len(c)] + ctx_names[c]
     results = {}
     problems = []
     for li, lt in enumerate(lts):
@@ -243,7 +285,7 @@ def run_behaviour(bindir, beh, *, root, cap, k, types, ctxs, fill=None, epz=None
             rec = results.setdefault(i, {"q": {}, "count": {}, "replay": {}, "replay_all": {}, "fs": None, "raw_bad": []})
             kind = tag[1]
             if kind == "q":
-                rows = decode_rows(o)
+                rows = decode_rows(o, back)
                 if rows is None:
                     rec["raw_bad"].append(o)
                 rec["q"][tag[2]] = rows
@@ -256,14 +298,14 @@ def run_behaviour(bindir, beh, *, root, cap, k, types, ctxs, fill=None, epz=None
                     rec["count"][tag[2]] = None
                     rec["raw_bad"].append(o)
             elif kind == "replay":
-                rows = decode_rows(o)
+                rows = decode_rows(o, back)
                 if rows is None:
                     rec["raw_bad"].append(o)
                 rec["replay"][tag[2]] = rows
             elif kind == "replay_all":
-                rec["replay_all"][tag[2]] = decode_rows(o)
+                rec["replay_all"][tag[2]] = decode_rows(o, back)
             elif kind == "fs":
-                rec["fs"] = o["shards"][0]
+                rec["fs"] = o["shards"][shard]
                 rec["uids"] = o.get("uids", {})
         expected_rc = {"crash": (-6, 134), "await_crash": (-6, 134), "shutdown": (0,)}
         if last_ends:
